@@ -23,6 +23,8 @@ HOME_PKG = "internal/home"
 HOME_FILES = ["zz_verif_common_test.go", "zz_verif_c13_test.go"]
 LAST = 29
 
+FLOAT_KINDS = {"fdot", "fexp", "ftag", "fnegzero"}
+ML_KINDS = {"tabml", "nlonly", "nl2", "leadnl", "mllist"}
 SECTIONS = {"coredns", "dns", "dhcp", "dhcp.dhcpv4", "clients", "querylog", "statistics", "http", "log",
             "filtering", "os"}
 
@@ -35,6 +37,14 @@ def classify(rec):
     if (rec.get("symptom") == "panic" and "assignment to entry in nil map" in rec.get("got", "")
             and rec.get("devs") in ([{"k": "@doc", "d": "null"}], [{"k": "@doc", "d": "tilde"}])):
         return "null-document-nil-map-panic"
+    kinds = {d["d"] for d in rec.get("devs") or []}
+    text = rec.get("what", "") + " " + rec.get("got", "")
+    if (kinds & FLOAT_KINDS and rec.get("symptom") in ("unexpected-error", "path-dependent")
+            and "float64" in text):
+        return "integral-float-path-dependent"
+    if kinds & ML_KINDS and (rec.get("symptom") in ("unparsable", "shape")
+                             or (rec.get("symptom") == "path-dependent" and "parsing config file" in text)):
+        return "unreadable-block-scalar"
     return None
 
 
